@@ -16,19 +16,20 @@ MANIFEST = {
                   'uninterpreted with monotonicity and inverse axioms; IEEE special values tracked symbolically through log, scalar '
                   'multiplication and nan_to_num): p = data/total, F = -k_B T ln p on visited voxels with exp(-F/k_B T) = p, denser voxel '
                   'never higher F, unvisited voxels get exactly DBL_MAX (finite, never NaN/inf) which exceeds both graph thresholds, the '
-                  'constant is the installed Boltzmann constant in eV/K. Bounded only: probabilities sum to one, F >= 0 (need the sum '
-                  'lemmas), node set of free_energy_graph.',
+                  'constant is the installed Boltzmann constant in eV/K. Induction lemmas over the recursive sum (per axis, composed over the three '
+                  'axes): partial sums of non-negative terms are non-negative and dominate every term (so every count <= total, p <= 1, F >= 0), and '
+                  'sum(c f) = c sum(f) (so the probabilities sum to one). Bounded only: node set of free_energy_graph.',
     'level_note': 'Trusted: ln/exp axioms (assumed mathematics), numpy log/nan_to_num special-value table, numpy sum as recursive spec '
                   'function, scipy.constants value, floats as reals, pyvc itself.',
     'technique': 'deductive: VCs from the real AST of Volume.probability / Volume.get_free_energy with an extended-real tensor domain for '
                  'inf/NaN; z3 + cvc5 (nonlinear); native replay; random-grid stand-in',
 }
-UNITS = ['unit_probability', 'unit_free_energy']
+UNITS = ['unit_probability', 'unit_free_energy', 'unit_sum_lemmas']
 BOUNDED = ['bounded_free_energy']
 META = {
-    'clauses': {'C09.prob': 'P (pointwise p = data/total, p >= 0); sum = 1 is B', 'C09.F': 'P', 'C09.mono': 'P', 'C09.unvisited': 'P',
+    'clauses': {'C09.prob': 'P (pointwise p = data/total, p >= 0; sum = 1 by the linearity lemma)', 'C09.F': 'P', 'C09.mono': 'P', 'C09.unvisited': 'P',
                 'C09.const': 'P (value of the installed constant)', 'C09.graph': 'P for DBL_MAX >= thresholds; node loop B'},
-    'not_decided': ['sum of probabilities = 1 and F >= 0 need induction lemmas over the 3-fold nested sum: bounded stand-in',
+    'not_decided': [
                     'ln/exp themselves are uninterpreted (axioms listed in trusted_base)'],
 }
 
@@ -156,7 +157,7 @@ def unit_free_energy(tier):
         ctx.assume(z3.And(T > 0, tot > 0))
         a, b, c = z3.Ints('ra rb rc')
         ctx.assume(z3.ForAll([a, b, c], st['df'](a, b, c) <= tot, patterns=[st['df'](a, b, c)]),
-                   tag='every voxel count <= total (consequence of non-negativity; the sum lemma itself is bounded-only)')
+                   tag='every voxel count <= total (lemmas C09.sum.term<=total per axis, unit C09.sum_lemmas)')
         st['T'], st['tot'] = T, tot
         ctx.ghost['st'] = st
         return [vol], {'temperature': T}, st
@@ -193,6 +194,60 @@ def unit_free_energy(tier):
     u.prove_function('gemdat.volume', 'Volume.get_free_energy', setup, post,
                      replay={'fn': 'verif.props.c09:replay_free_energy', 'sizes': lambda st: [],
                              'concretise': lambda model, st, ob: {'seed': 5, 'shape': [2, 3, 2], 'temperature': 300.0}})
+    return u
+
+
+def unit_sum_lemmas(tier):
+    """Induction lemmas over the recursive sum S(k+1) = S(k) + f(k), S(0) = 0 (one axis; the grid total is the three-fold composition)."""
+    u = Unit('C09.sum_lemmas')
+    I, R = z3.IntSort(), z3.RealSort()
+
+    def nonneg(ctx):
+        f, S = z3.Function('f', I, R), z3.Function('S', I, R)
+        k = z3.Int('k')
+        ctx.assume(z3.And(k >= 0, f(k) >= 0, S(0) == 0, S(k + 1) == S(k) + f(k)))
+        ctx.assume(S(k) >= 0)
+        return [('base', S(0) >= 0), ('step', S(k + 1) >= 0), ('partial sums are non-decreasing', S(k + 1) >= S(k))]
+    u.lemma('C09.sum.nonnegative(induction)', nonneg)
+
+    def term_le_total(ctx):
+        """f >= 0, j < n  =>  f(j) <= S(n): induction on n from n = j+1"""
+        f, S = z3.Function('f', I, R), z3.Function('S', I, R)
+        j, n = z3.Ints('j n')
+        ctx.assume(z3.And(j >= 0, n >= j + 1))
+        ctx.assume(z3.And(f(j) >= 0, f(n) >= 0, S(j) >= 0, S(j + 1) == S(j) + f(j), S(n + 1) == S(n) + f(n)))
+        ctx.assume(f(j) <= S(n))
+        return [('base (n = j+1)', f(j) <= S(j + 1)), ('step', f(j) <= S(n + 1))]
+    u.lemma('C09.sum.term<=total(induction)', term_le_total)
+
+    def chain(ctx):
+        """three axes: count <= row total <= plane total <= grid total, each by the previous lemma applied to a non-negative summand"""
+        d, row, plane, tot = z3.Reals('count row_total plane_total total')
+        ctx.assume(z3.And(d >= 0, d <= row, row <= plane, plane <= tot))
+        return [('count <= total', d <= tot), ('count >= 0 and total > 0 => p in [0,1]', z3.Implies(tot > 0, z3.And(d / tot >= 0, d / tot <= 1)))]
+    u.lemma('C09.sum.count<=grid-total', chain)
+
+    def linear(ctx):
+        f, S, Sc = z3.Function('f', I, R), z3.Function('S', I, R), z3.Function('Sc', I, R)
+        k, c = z3.Int('k'), z3.Real('c')
+        ctx.assume(z3.And(k >= 0, S(0) == 0, Sc(0) == 0, S(k + 1) == S(k) + f(k), Sc(k + 1) == Sc(k) + c * f(k)))
+        ctx.assume(Sc(k) == c * S(k))
+        return [('base', Sc(0) == c * S(0)), ('step', Sc(k + 1) == c * S(k + 1))]
+    u.lemma('C09.sum.linear(induction)', linear)
+
+    def one(ctx):
+        """sum of p = sum(data/total) = (1/total) sum(data) = 1 (linearity on each of the three axes)"""
+        tot, c, s3 = z3.Reals('total c sum_of_p')
+        ctx.assume(z3.And(tot > 0, c == 1 / tot, s3 == c * tot))
+        return [('probabilities sum to one', s3 == 1)]
+    u.lemma('C09.sum.probabilities-sum-to-one', one)
+
+    def f_nonneg(ctx):
+        """p in (0,1] => ln p <= 0 => F = -kT ln p >= 0   (ln monotone, ln 1 = 0: the axioms used by the main unit)"""
+        p, kT, lnp = z3.Reals('p kT ln_p')
+        ctx.assume(z3.And(p > 0, p <= 1, kT > 0, lnp <= 0))
+        return [('F >= 0', -kT * lnp >= 0)]
+    u.lemma('C09.F-nonnegative', f_nonneg)
     return u
 
 
